@@ -769,7 +769,7 @@ def find_external_type(file_ast: FortranAST, desc_string: str, name: str) -> boo
     # Definition without EXTERNAL has already been parsed
     for v in file_ast.variable_list:
         # (the declaration to complete is the one of the current scope)
-        if name == v.name and v.parent is file_ast.current_scope:
+        if name.lower() == v.name.lower() and v.parent is file_ast.current_scope:
             # If variable is already in external objs it has
             # been parsed correctly so exit
             if v in file_ast.external_objs:
@@ -806,7 +806,7 @@ def find_external_attr(file_ast: FortranAST, name: str, new_var: Variable) -> bo
     """
     counter = 0
     for v in file_ast.external_objs:
-        if v.name != name or v.parent is not file_ast.current_scope:
+        if v.name.lower() != name.lower() or v.parent is not file_ast.current_scope:
             continue
         if v.desc.upper() != "EXTERNAL":
             continue
